@@ -502,7 +502,15 @@ impl std::io::Write for FileSpillWriter {
             )));
         }
 
-        self.file.write_all(buf).map_err(DataFusionError::IoError)?;
+        if let Err(e) = self.file.write_all(buf) {
+            // The bytes were reserved globally above but are not charged to this
+            // file, so dropping the file would never release them: undo the
+            // reservation before reporting the failure.
+            self.disk_manager
+                .used_disk_space
+                .fetch_sub(len, Ordering::Relaxed);
+            return Err(DataFusionError::IoError(e).into());
+        }
 
         self.current_file_disk_usage
             .fetch_add(len, Ordering::Relaxed);
